@@ -84,12 +84,25 @@ var verif_destruct(var p) {
 }
 void verif_dealloc(var p) { long i = cell_index(p); V_ASSERT(i >= 0, "dealloc of a managed cell"); if (i >= 0) { if (!finalised[i]) order_ok = 0; freed[i]++; } }
 static var probe_ptr = NULL; static uint64_t probe_hash = 0;    /* the pointer operated on may get a CONSTANT hash (case split on its home slot) */
-uint64_t verif_gc_hash(var p) { if (p == probe_ptr) return probe_hash; long i = cell_index(p); V_ASSERT(i >= 0, "hash of a managed cell"); return i >= 0 ? IN.GH[i] : 0; }
+uint64_t verif_gc_hash(var p) { if (p == probe_ptr) return probe_hash; long i = cell_index(p); return i >= 0 ? IN.GH[i] : IN.mitems; /* foreign pointers hash arbitrarily */ }
 static int rehash_calls = 0; static size_t rehash_size = 0;
 void verif_gc_rehash_stub(struct GC* gc, size_t n) { rehash_calls++; rehash_size = n; }
 static int mark_calls = 0, sweep_calls = 0;
 void verif_mark_stub(struct GC* gc) { mark_calls++; }
 void verif_sweep_stub(struct GC* gc) { sweep_calls++; }
+/* mark phase, decomposed (assume-guarantee): GC_Mark_Item and GC_Recurse call each other once per level of
+ * the heap graph; unrolling that recursion multiplies by the probe-loop length at every level.  Each of the
+ * three functions is checked against its contract with its callee replaced by a recorder:
+ *   GC_Mark_Item(p): if p is a registered, unmarked object: mark it and recurse into it exactly once; otherwise nothing
+ *   GC_Recurse(p)  : hands every pointer-sized word of a plain object to GC_Mark_Item
+ *   GC_Mark        : marks every unmarked root and recurses into it; hands every stack word to GC_Mark_Item
+ * By induction on path length these give: everything reachable from a root or a stack word is marked, and
+ * the recursion ends (an object is entered only on its unmarked->marked transition). */
+#define MAXCALLS 12
+static var rec_recurse[MAXCALLS]; static int n_recurse = 0;
+static var rec_item[MAXCALLS]; static int n_item = 0;
+void verif_recurse_stub(struct GC* gc, var p) { if (n_recurse < MAXCALLS) rec_recurse[n_recurse] = p; n_recurse++; }
+void verif_item_stub(void* gc, void* p) { if (n_item < MAXCALLS) rec_item[n_item] = p; n_item++; }
 static uint64_t STK[NK + 2];
 var cello_verif_stack_top(var top) { return IN.dir ? (var)&STK[NK] : (var)&STK[1]; }
 
@@ -101,6 +114,9 @@ var cello_verif_stack_top(var top) { return IN.dir ? (var)&STK[NK] : (var)&STK[1
 #define OP_REHASH 6
 #define OP_HASH 7
 #define OP_COLLECT 8
+#define OP_MARK_ITEM 9
+#define OP_RECURSE 10
+#define OP_MARK_TOP 11
 
 #if NS == 1
 #define MAXN 0
@@ -221,7 +237,7 @@ V_HARNESS {
   _Bool m = GC_Mem_Ptr(gc, pc);
   V_WITNESS("mem computed");
   V_ASSERT(m == c_in, "mem(gc, p) holds exactly for registered objects");
-  V_ASSERT(!GC_Mem_Ptr(gc, &JUNK[0]) || 1, "lookup of a foreign pointer terminates");
+  V_ASSERT(!GC_Mem_Ptr(gc, &JUNK[0]), "a pointer that was never registered is not a member");
 #elif OP == OP_REM
   /* explicit del of a registered object (collector running) */
   V_ASSUME(inv(gc, NS, 1) && c_in && IN.own[c] == -1);
@@ -282,6 +298,44 @@ V_HARNESS {
     if (r && !reach[i]) V_ASSERT(!gc->entries[p].marked, "mark: nothing unreachable is retained (precision on this graph)");
   }
   V_ASSERT(finalised[0] + finalised[1] + finalised[2] == 0, "mark finalises nothing");
+#elif OP == OP_MARK_ITEM
+  /* any pointer value: a managed cell (registered or not), junk, an unaligned or out-of-range address */
+  V_ASSUME(inv(gc, NS, 0) && n > 0);
+  var p = IN.isroot == 0 ? pc : IN.isroot == 1 ? (var)&JUNK[0] : IN.isroot == 2 ? (var)((char*)pc + 1) : NULL;
+  if (p == pc) { probe_ptr = pc; probe_hash = IN.GH[c]; }
+  _Bool was_marked = c_in && gc->entries[at].marked;
+  GC_Mark_Item(gc, p);
+  V_WITNESS("mark_item returned");
+  for (long i = 0; i < NC; i++) {
+    size_t q = 0; _Bool r = reg_find(gc, NS, i, &q);
+    V_ASSERT(r == pre_reg[i] && (!r || gc->entries[q].root == pre_root[i]), "mark_item: registrations and root flags unchanged");
+    if (r && !(p == pc && i == c)) V_ASSERT(gc->entries[q].marked == pre_mark[i], "mark_item: no other object's mark changes");
+  }
+  if (p == pc && c_in) {
+    V_ASSERT(gc->entries[at].marked, "mark_item: a registered object reached by a pointer is marked");
+    V_ASSERT(n_recurse == (was_marked ? 0 : 1) && (was_marked || rec_recurse[0] == pc), "mark_item: recurses into the object exactly once, on its unmarked->marked transition");
+  } else V_ASSERT(n_recurse == 0, "mark_item: unregistered, foreign, unaligned and NULL words are ignored");
+#elif OP == OP_RECURSE
+  build_graph();
+  GC_Recurse(gc, pc);
+  V_WITNESS("recurse returned");
+  V_ASSERT(n_item == 2 && rec_item[0] == target(IN.w0[c]) && rec_item[1] == target(IN.w1[c]), "recurse: every pointer-sized word of a plain object is handed to the marker, in order, nothing else");
+#elif OP == OP_MARK_TOP
+  V_ASSUME(inv(gc, NS, 1) && n > 0);
+  build_graph();
+  GC_Mark(gc);
+  V_WITNESS("mark returned");
+  { int roots = 0, k = 0; _Bool ok = 1;
+    for (size_t i = 0; i < NS; i++) if (gc->entries[i].hash != 0) {
+      long ci = cell_index(gc->entries[i].ptr);
+      if (gc->entries[i].root) { if (!gc->entries[i].marked) ok = 0; if (k >= MAXCALLS || rec_recurse[k] != gc->entries[i].ptr) ok = 0; k++; roots++; }
+      else if (gc->entries[i].marked) ok = 0;
+    }
+    V_ASSERT(ok && n_recurse == roots, "mark: every root-registered object is marked and entered exactly once, nothing else is marked at the top level");
+    V_ASSERT(n_item == NK, "mark: exactly the words of the stack segment between the current top and the recorded bottom are scanned");
+    _Bool all = 1;
+    for (int w = 0; w < NK; w++) { _Bool found = 0; for (int j = 0; j < NK; j++) if (j < n_item && rec_item[j] == (var)STK[1 + w]) found = 1; if (!found) all = 0; }
+    V_ASSERT(all, "mark: every stack word reaches the marker (either stack direction)"); }
 #elif OP == OP_REHASH
   V_ASSUME(inv(gc, NS, 0) || 1);
 #endif
